@@ -78,6 +78,8 @@ def make_cfg(rs, tier):
     cfg["p_outside"] = rs.choice([0.0, 0.2, 0.35])
     cfg["oracles"] = ["backend", "result", "children"]
     cfg["p_handle_store"] = rs.choice([0.0, 0.08, 0.15])   # synced nodes (also of another root) stored into the tree
+    if lib.load().families[cfg["family"]]["buffered"] and rs.random() < 0.45:
+        cfg.update(nobj=1, p_outside=0.0, p_ctx=rs.choice([0.15, 0.3]), p_handle_store=0.0)
     return cfg
 
 
@@ -247,6 +249,18 @@ def make_cfg_for_seq(rs, tier):
 
 
 def gen_step(w, rg):
+    cfg = w.cfg
+    if cfg.get("p_ctx"):
+        # BUFFERED share (one object, no outside writer): the walk runs after every step inside per-object and backend-wide
+        # buffered contexts, too - both buffer strategies re-point / rebuild the data tree of an object at enter, first
+        # access, flush and exit
+        if rg.random() < cfg["p_ctx"]:
+            if w.ctx and (len(w.ctx) >= 3 or rg.random() < 0.45):
+                return {"t": "exit"}
+            w.probe("buffered_ctx_in_walk")
+            if rg.random() < 0.5:
+                return {"t": "enter", "ctx": "obj", "oid": 0}
+            return {"t": "enter", "ctx": "backend", "family": cfg["family"], "kind": cfg["kind"]}
     return _unbuf.gen_step(w, rg)
 
 
